@@ -225,7 +225,10 @@ def _gen_leaf(ctx: _Ctx, cls: type, tp, kafka_type: str):
         lo, hi = _int_range(tp, kafka_type)
         return _gen_int(rng, lo, hi)
     if kafka_type == "string":
-        return gen_str_of_bytes(rng, _length(ctx, flexible, 32767))
+        v = gen_str_of_bytes(rng, _length(ctx, flexible, 32767))
+        if isinstance(tp, type) and tp is not str and issubclass(tp, str) and rng.random() < 0.5:
+            return tp(v)  # a real TopicName / GroupId / TransactionalId instance, not a plain str
+        return v
     if kafka_type in ("bytes", "records"):
         return rng.randbytes(_length(ctx, flexible, 70000))
     if kafka_type == "uuid":
@@ -333,6 +336,8 @@ def gen_instance(rng, cls: type, shape: dict | None = None):
 
 
 def to_tree(x):
+    if isinstance(x, str) and type(x) is not str:
+        return {"strsub": f"{type(x).__module__}:{type(x).__name__}", "v": str(x)}
     if x is None or isinstance(x, (bool, str)):
         return x
     if dataclasses.is_dataclass(x) and not isinstance(x, type):
@@ -370,6 +375,9 @@ def from_tree(t):
         mod, name = t["$"].split(":")
         cls = getattr(importlib.import_module(mod), name)
         return cls(**{k: from_tree(v) for k, v in t["f"].items()})
+    if "strsub" in t:
+        mod, name = t["strsub"].split(":")
+        return getattr(importlib.import_module(mod), name)(t["v"])
     if "ec" in t:
         from kio.schema.errors import ErrorCode
 
